@@ -436,9 +436,54 @@ def r4_warmup(ck, repo, L, res, learn_set):
             for txt, truth in cfg._lits(bn.ast.test, lab, b):
                 if _is_warm(txt, truth, cvar):
                     ok = True
+        if not ok:
+            tg = _trip_gate(cfg, nid, cvar, L.outer_header)
+            if tg is True:
+                ok = True
+            elif tg is None:
+                raise AnalysisError(f"{site}: the number of updates per step `{short(c, 40)}` runs under is computed in a way this rule does not read (cannot decide the warm-up gate)")
         ck.ob("R4-warmup", site, f"gate:{q.rsplit('.', 1)[1]}", ok, f"`{short(c, 60)}`",
               "" if ok else f"learning call is not guarded by `{cvar} >= learning_starts` although `learning_starts` is documented as the warm-up: updates start too early",
               loc(L.mi, c))
+
+
+def _trip_gate(cfg, nid, cvar, outer):
+    """Warm-up through the number of updates: the call sits in `for _ in range(N)` and N is 0 unless counter >= learning_starts.
+    True: gated; False: the inner loops have trip counts that do not depend on the warm-up; None: cannot tell."""
+    verdict = False
+    for h in cfg.enclosing_loops(nid):
+        if h == outer:
+            break
+        hn = cfg.nodes[h]
+        if hn.kind != "for":
+            continue
+        it = hn.ast.iter
+        if not (isinstance(it, ast.Call) and dotted(it.func) in ("range", "trange") and len(it.args) == 1 and isinstance(it.args[0], ast.Name)):
+            continue
+        defs = cfg.defs_of(h, it.args[0].id)
+        if not defs or any(d.kind == "param" for d in defs):
+            continue
+        all_ok = True
+        for d in defs:
+            v = d.value if d.kind == "assign" else None
+            if isinstance(v, ast.Constant) and v.value == 0:
+                continue
+            if isinstance(v, ast.IfExp):
+                zero_else = isinstance(v.orelse, ast.Constant) and v.orelse.value == 0
+                zero_body = isinstance(v.body, ast.Constant) and v.body.value == 0
+                lits_t = cfg._lits(v.test, True, d.node) if zero_else else cfg._lits(v.test, False, d.node) if zero_body else []
+                if any(_is_warm(t_, tr_, cvar) for t_, tr_ in lits_t):
+                    continue
+            # a non-zero definition under a warm-up branch
+            lits = [(t_, tr_) for b, lab in cfg.control_deps(d.node) if cfg.nodes[b].kind == "test" and isinstance(cfg.nodes[b].ast, ast.If) for t_, tr_ in cfg._lits(cfg.nodes[b].ast.test, lab, b)]
+            if any(_is_warm(t_, tr_, cvar) for t_, tr_ in lits):
+                continue
+            all_ok = False
+            if v is not None and not isinstance(v, (ast.Name, ast.Constant, ast.Attribute)):
+                verdict = None
+        if all_ok:
+            return True
+    return verdict
 
 
 def _is_warm(txt, truth, cvar):
